@@ -481,9 +481,10 @@ def fault_effect(sc, c, out):
     d = H.any_decision(bad[0][1]) if len(bad) == 1 and bad[0][0] == "J" else None
     if d is not None and d[1] == "ask" and (c.fault[1] == "ConfigError"):
         return "config-error ask"
-    if d is not None and d[1] == "ask" and ":" in c.fault[0]:
-        # a function INSIDE load_config / analyze made to raise (fault_sweep): some callers handle it themselves - parse_config
-        # skips the configuration line, ... - and the answer is an ask: fail-closed, as the property demands
+    if d is not None and d[1] == "ask":
+        # some callers handle the failure of what they call themselves - parse_config skips the configuration line,
+        # analyze() (since 89536cc) reports a failure of the parser as a parse error - and the answer is an ask:
+        # fail-closed, as the property demands (an ask is never more lenient than the fault-free answer or {})
         return "ask"
     out.violations.append({"kind": "protocol", "what": f"{c.fault[0]} raising {c.fault[1]} turned the answer {good} into {bad}",
                            **H.describe(c, sc), "without_fault": c.twin.out[:300].decode("utf-8", "replace"),
